@@ -84,6 +84,11 @@ func checkC16(c *ExecCase) (*ev.Failure, string) {
 	if err != nil {
 		return ev.Failf("harness", "%v", err), ""
 	}
+	// an earlier request with the same text but other variable values must not influence the answer (plan cache)
+	if wv := warmupVariables(c.Op.Variables, typeNames(merged)); wv != nil {
+		gwx.PostOp(gw, gwx.GQLRequest{Query: c.Op.Query, Variables: wv, OperationName: c.Op.OperationName}, 15*time.Second)
+		net.Reset()
+	}
 	resp := gwx.PostOp(gw, gwx.GQLRequest{Query: c.Op.Query, Variables: c.Op.Variables, OperationName: c.Op.OperationName}, 15*time.Second)
 	if resp.TimedOut {
 		return ev.Failf("hang", "no response"), ""
@@ -135,6 +140,38 @@ func checkC16(c *ExecCase) (*ev.Failure, string) {
 	return nil, class
 }
 
+// warmupVariables returns the variables with every value changed (booleans flipped, strings replaced by another type name)
+func warmupVariables(vars map[string]interface{}, names []string) map[string]interface{} {
+	if len(vars) == 0 {
+		return nil
+	}
+	out := map[string]interface{}{}
+	changed := false
+	for k, v := range vars {
+		switch x := v.(type) {
+		case bool:
+			out[k] = !x
+			changed = true
+		case string:
+			alt := "Query"
+			for _, n := range names {
+				if n != x && !strings.HasPrefix(n, "__") {
+					alt = n
+					break
+				}
+			}
+			out[k] = alt
+			changed = changed || alt != x
+		default:
+			out[k] = v
+		}
+	}
+	if !changed {
+		return nil
+	}
+	return out
+}
+
 func metaFieldOf(s string) string {
 	s = strings.TrimSpace(s)
 	if i := strings.Index(s, "["); i >= 0 {
@@ -181,8 +218,9 @@ func TestC16(t *testing.T) {
 			w.Store = &world.Store{Entities: map[string]*world.Entity{}, Roots: map[string]interface{}{}}
 		}
 		c := &ExecCase{World: w}
-		if !rich {
-			c.Config = genConfig(t, len(w.Services))
+		c.Config = genConfig(t, len(w.Services))
+		if rich {
+			c.Config.Order = nil
 		}
 		res, merr, pan := runMerge(w, c.Config.Order, c.Config.Merger)
 		if pan != "" || merr != nil {
